@@ -9,6 +9,7 @@ import (
 	"flag"
 	"fmt"
 	"os"
+	"os/exec"
 	"path/filepath"
 	"sort"
 	"strings"
@@ -23,6 +24,12 @@ type PropSpec struct {
 	Assumptions []string `json:"assumptions"`
 	NotCovered  []string `json:"not_covered,omitempty"`
 	Bounded     []string `json:"bounded,omitempty"`
+	// Harness: a bounded stand-in (labelled bounded, never counted as proved): directory of a Go
+	// program under /verif that is rebuilt against /repo's working tree on every run.
+	Harness *struct {
+		Dir  string `json:"dir"`
+		What string `json:"what"`
+	} `json:"bounded_harness,omitempty"`
 }
 
 type KnownFinding struct {
@@ -188,6 +195,14 @@ func cmdCheck(args []string) {
 		}
 	}
 
+	// ---- bounded stand-in harness (never counted in obligations/discharged)
+	var boundedOut map[string]interface{}
+	if spec.Harness != nil {
+		var hv []Violation
+		boundedOut, hv = runHarness(*vdir, *prop, *tier, spec.Harness.Dir, spec.Harness.What)
+		viols = append(viols, hv...)
+	}
+
 	// ---- known findings, replay files, output
 	repDir := filepath.Join(*vdir, "replays", *prop)
 	os.MkdirAll(repDir, 0o755)
@@ -216,6 +231,9 @@ func cmdCheck(args []string) {
 		path := filepath.Join(repDir, sanitize(vi.Obligation)+".json")
 		vi.Replay = path
 		tail := " no-failing-input-found"
+		if vi.Reproduced {
+			tail = " failing-input-replayed-on-real-code"
+		}
 		if vi.obl != nil && vi.obl.replay != nil && nReplays < maxReplays {
 			nReplays++
 			ro := vi.obl.replay.replay(vi.obl, vi.obl.Clause, filepath.Join(repDir, "tests"), *root)
@@ -293,16 +311,36 @@ func cmdCheck(args []string) {
 		"vacuity":                  vac,
 		"not_covered":              spec.NotCovered,
 		"bounded":                  spec.Bounded,
+		"bounded_standin":          boundedOut,
 		"known_findings_seen":      knownSeen,
 		"lean_lemmas_used_as_axioms": leanUsed,
 		"notes":                    notes,
 		"explanation":              spec.Title,
 	}
+	level := "proof"
+	if len(samples) == 0 && boundedOut != nil {
+		if bs, ok := boundedOut["samples"].([]interface{}); ok {
+			for _, x := range bs {
+				samples = append(samples, x.(map[string]interface{}))
+			}
+			cov["samples"] = samples
+		}
+	}
+	if samples == nil {
+		cov["samples"] = []interface{}{}
+	}
+	if nObl == 0 && spec.Harness != nil {
+		// nothing under contract: the run is only the bounded stand-in
+		level = "other"
+		cov["explanation"] = spec.Title + " -- BOUNDED stand-in only (not a proof over all widths): " + spec.Harness.What
+		delete(cov, "obligations")
+		delete(cov, "discharged")
+	}
 	ev := map[string]interface{}{
 		"property_id": *prop,
 		"tier":        *tier,
 		"seed":        seed,
-		"level":       "proof",
+		"level":       level,
 		"coverage":    cov,
 		"assumptions": assumptions,
 		"wall_s":      round2(time.Since(t0).Seconds()),
@@ -322,9 +360,118 @@ func cmdCheck(args []string) {
 	}
 }
 
+// runHarness builds and runs a bounded harness; its JSON result list becomes evidence and violations.
+func runHarness(vdir, prop, tier, dir, what string) (map[string]interface{}, []Violation) {
+	bin := filepath.Join(vdir, "bin", dir)
+	out := map[string]interface{}{"label": "BOUNDED (stand-in, not counted as proved)", "what": what}
+	fail := func(msg string) (map[string]interface{}, []Violation) {
+		out["error"] = msg
+		return out, []Violation{{Property: prop, Obligation: "bounded:" + dir + "#harness", Function: dir, Kind: "bounded", Desc: "bounded harness could not be built or run against the current tree: " + firstLine(msg), Status: "failed-nomodel"}}
+	}
+	build := exec.Command("go", "build", "-o", bin, ".")
+	build.Dir = filepath.Join(vdir, dir)
+	build.Env = append(os.Environ(), "GOFLAGS=-mod=mod", "GOPROXY=off")
+	if b, err := build.CombinedOutput(); err != nil {
+		return fail("go build: " + string(b))
+	}
+	tmp, err := os.CreateTemp("", "harness-*.json")
+	if err != nil {
+		return fail(err.Error())
+	}
+	tmp.Close()
+	defer os.Remove(tmp.Name())
+	run := exec.Command(bin, "-tier", tier, "-out", tmp.Name())
+	txt, err := run.CombinedOutput()
+	if err != nil {
+		return fail("run: " + err.Error() + ": " + truncate(string(txt), 400))
+	}
+	var rs []struct {
+		Builder string  `json:"builder"`
+		Target  string  `json:"target"`
+		Widths  [3]int  `json:"widths_x_y_z"`
+		Gates   int     `json:"gates"`
+		Status  string  `json:"status"`
+		Class   string  `json:"class"`
+		Detail  string  `json:"detail"`
+		X       string  `json:"x"`
+		Y       string  `json:"y"`
+		Real    string  `json:"real_circuit_output"`
+		Want    string  `json:"specified_output"`
+		Replay  string  `json:"replayed_on_real_circuit"`
+		Secs    float64 `json:"seconds"`
+	}
+	b, _ := os.ReadFile(tmp.Name())
+	if err := json.Unmarshal(b, &rs); err != nil || len(rs) == 0 {
+		return fail("no results: " + truncate(string(txt), 400))
+	}
+	var viols []Violation
+	grouped := map[string]int{}
+	groupCount := map[int]int{}
+	perBuilder := map[string]map[string]int{}
+	equal, secs, maxW := 0, 0.0, 0
+	var samples []interface{}
+	for _, r := range rs {
+		pb := perBuilder[r.Builder]
+		if pb == nil {
+			pb = map[string]int{}
+			perBuilder[r.Builder] = pb
+		}
+		pb[r.Status]++
+		secs += r.Secs
+		for _, w := range r.Widths {
+			if w > maxW {
+				maxW = w
+			}
+		}
+		if r.Status == "equal" {
+			equal++
+			if len(samples) < 6 && r.Gates > 20 && (equal%97) == 0 {
+				samples = append(samples, map[string]interface{}{"builder": r.Builder, "target": r.Target, "widths_x_y_z": r.Widths, "gates": r.Gates, "result": "circuit == specification for all operand values (QF_BV, z3 5.1)", "seconds": round2(r.Secs)})
+			}
+			continue
+		}
+		name := fmt.Sprintf("bounded:%s#%s[%s,%d,%d,%d]", r.Builder, r.Class, r.Target, r.Widths[0], r.Widths[1], r.Widths[2])
+		st := "failed-nomodel"
+		if r.Status == "unknown" {
+			st = "unknown"
+		}
+		v := Violation{Property: prop, Obligation: name, Function: r.Builder, Kind: "bounded", Where: fmt.Sprintf("target=%s widths=%v x=%s y=%s real circuit output=%s specified=%s", r.Target, r.Widths, r.X, r.Y, r.Real, r.Want),
+			Desc: r.Detail, Status: st, Solver: r.Replay, Reproduced: strings.HasPrefix(r.Replay, "confirmed")}
+		if r.Status != "known-deviation" {
+			// a known finding only covers circuits that still show exactly the recorded behaviour
+			v.Kind = "bounded-new"
+		}
+		// one violation per builder, class and kind: the first (smallest) configuration stands for the rest
+		gk := r.Builder + "#" + r.Class + "#" + v.Kind
+		if i, ok := grouped[gk]; ok {
+			groupCount[i]++
+			continue
+		}
+		grouped[gk] = len(viols)
+		groupCount[len(viols)] = 1
+		viols = append(viols, v)
+	}
+	for i, n := range groupCount {
+		if n > 1 {
+			viols[i].Desc += fmt.Sprintf(" (and %d more configurations of this builder)", n-1)
+		}
+	}
+	out["circuits"] = len(rs)
+	out["equal_for_all_operand_values"] = equal
+	out["max_width"] = maxW
+	out["per_builder"] = perBuilder
+	out["solver_seconds"] = round2(secs)
+	out["samples"] = samples
+	out["cmd"] = fmt.Sprintf("(cd %s && go build) && bin/%s -tier %s", dir, dir, tier)
+	return out, viols
+}
+
 func matchKnown(known []KnownFinding, v *Violation) *KnownFinding {
 	for i := range known {
 		k := &known[i]
+		if v.Kind == "bounded-new" {
+			continue
+		}
 		if k.Status == "known" && k.Property == v.Property && k.Site == v.Function && strings.HasPrefix(v.Obligation, k.Obligation) {
 			return k
 		}
